@@ -45,6 +45,20 @@ def zwOp (id : Nat) (op : WOp UInt8) : M String := do
     set { w with zw := w.zw.insert id z' }
     return s!"{showA res} ## L={z'.q.len} M={z'.q.mallocLen} sunk={z'.sink.got.length}:{fnv z'.sink.got} left={z'.sink.script.length}"
 
+/-- `iowz write`: `ioWriter.Write(p)` over a `zcWriter` - `Malloc(len p)`, copy, `Flush`: the two `WOp`s
+`malloc` and `flush` of the writer model in a row (so `C16_writer_stream`, which holds for every `WOp`
+sequence, covers it); `Write` returns `(len p, nil)` or `(0, the Flush error)`. -/
+def iowzWrite (id : Nat) (p : List UInt8) : M String := do
+  let w ← get
+  match w.zw.get? id with
+  | none => return "nobuf"
+  | some z =>
+    let (z1, _) := z.step (.malloc p.length p)
+    let (z2, res) := z1.step .flush
+    set { w with zw := w.zw.insert id z2 }
+    let r := match res with | .ok _ => s!"ok n:{p.length}" | e => showA e
+    return s!"{r} ## L={z2.q.len} M={z2.q.mallocLen} sunk={z2.sink.got.length}:{fnv z2.sink.got} left={z2.sink.script.length}"
+
 def step (line : String) : M String := do
   let w ← get
   let toks := (line.splitOn " ").filter (· ≠ "")
@@ -67,6 +81,11 @@ def step (line : String) : M String := do
   | ["zw", id, "new", sc] =>
     set { w with zw := w.zw.insert (n! id) { sink := { script := (parseScript sc).map fun (p : Int × IOErr) => (p.1.toNat, p.2) } } }
     return "ok"
+  | ["iowz", id, "new", sc] =>
+    set { w with zw := w.zw.insert (n! id) { sink := { script := (parseScript sc).map fun (p : Int × IOErr) => (p.1.toNat, p.2) } } }
+    return "ok"
+  | ["iowz", id, "write", n, seed] => iowzWrite (n! id) (genBytes (n! seed) (n! n))
+  | ["iowz", id, "flush"] => zwOp (n! id) .flush
   | ["zw", id, "mal", n, seed] => zwOp (n! id) (.malloc (i! n) (genBytes (n! seed) (i! n).toNat))
   | ["zw", id, "wbin", n, seed, c] => zwOp (n! id) (.writeBinary (genBytes (n! seed) (n! n)) (n! c))
   | ["zw", id, "wstr", n, seed] => zwOp (n! id) (.writeBinary (genBytes (n! seed) (n! n)) (n! n))
